@@ -6,7 +6,7 @@
 From Coq Require Import List ZArith Bool Arith Lia.
 From SC Require Import Base.Res Base.PyList Inst.Heap Inst.ClassTable Inst.Model Inst.Canon
   Inst.Abs Inst.SpecHelpers Inst.ElemProofs Inst.Framed Inst.RefineProofs Inst.CopyProofs Inst.ElemRefineDep Inst.ElemRefine
-  Inst.ElemRefine2 Inst.ElemRefine3 Inst.ElemRefine4 Inst.ElemRefine5 Inst.ElemRefine6 Inst.ElemRefine7 Inst.ElemRefine8 Inst.ElemRefine9 Inst.ElemRefine10 Inst.ElemRefine11 Inst.ElemRefine12.
+  Inst.ElemRefine2 Inst.ElemRefine3 Inst.ElemRefine4 Inst.ElemRefine5 Inst.ElemRefine6 Inst.ElemRefine7 Inst.ElemRefine8 Inst.ElemRefine9 Inst.ElemRefine10 Inst.ElemRefine11 Inst.ElemRefine12 Inst.ElemRefine13.
 Import ListNotations.
 Open Scope nat_scope.
 
@@ -1190,6 +1190,233 @@ Section GuardedMissingCopy.
 End GuardedMissingCopy.
 
 (* ------------------------------------------------------------------ *)
+(** * Nested receivers (in place) *)
+
+(* instance of an unfrozen class in which nothing is invalidated by a, whose attribute a is declared
+   as a list / dict / set and holds a container of scalars of that family that NO OTHER attribute
+   reaches (the other attributes may hold anything: instances, containers of containers, ...) *)
+Definition nested_guard (ct : ctable) (s : state) (l : loc) (a : aid) (kd : ckind) : bool :=
+  match nth_error (heap s) l with
+  | Some (OInst c d) =>
+      match lookup_cls ct c with
+      | Some k =>
+          match lookup_attr k a, assoc a d with
+          | Some sp, Some (VRef lc) =>
+              match nth_error (heap s) lc with
+              | Some o =>
+                  nodupb (map fst d) && negb (c_frozen k) && no_depb k a
+                  && (ty_depth (a_ty sp) <=? FUEL)
+                  && forallb (fun p => (fst p =? a) || negb (reaches 23 (heap s) (snd p) lc)) d
+                  && scalar_obj o && kind_ok kd (a_ty sp) o
+              | None => false
+              end
+          | _, _ => false
+          end
+      | None => false
+      end
+  | _ => false
+  end.
+
+Section GuardedNested.
+  Variable ct : ctable.
+  Variable h0 : list obj.
+  Variable s : state.
+  Variables (l : loc) (a : aid).
+
+  Lemma nested_guard_sound kd : nested_guard ct s l a kd = true ->
+    exists c d k sp lc o,
+      nth_error (heap s) l = Some (OInst c d) /\ lookup_cls ct c = Some k /\ lookup_attr k a = Some sp /\
+      NoDup (map fst d) /\ c_frozen k = false /\ no_dep k a /\ ty_depth (a_ty sp) <= FUEL /\
+      assoc a d = Some (VRef lc) /\ nth_error (heap s) lc = Some o /\ scalar_obj o = true /\
+      (forall b w, In (b, w) d -> b <> a -> reaches 23 (heap s) w lc = false) /\
+      kind_ok kd (a_ty sp) o = true /\ attr_spec_of ct s l a = Some sp /\ attr_obj s l a = Some o.
+  Proof.
+    unfold nested_guard, attr_spec_of, attr_obj, attr_cell. intro H.
+    destruct (nth_error (heap s) l) as [[| | |c d]|] eqn:El; try discriminate.
+    destruct (lookup_cls ct c) as [k|] eqn:Ec; try discriminate.
+    destruct (lookup_attr k a) as [sp|] eqn:Ea; try discriminate.
+    destruct (assoc a d) as [[| | | | | | | |lc]|] eqn:Ef; try discriminate.
+    destruct (nth_error (heap s) lc) as [o|] eqn:Eo; try discriminate.
+    apply andb_true_iff in H. destruct H as [H Hkind].
+    apply andb_true_iff in H. destruct H as [H Hsc].
+    apply andb_true_iff in H. destruct H as [H Hreach].
+    apply andb_true_iff in H. destruct H as [H Hdep].
+    apply andb_true_iff in H. destruct H as [H Hnd].
+    apply andb_true_iff in H. destruct H as [Hdup Hfz].
+    exists c, d, k, sp, lc, o.
+    split; [first [reflexivity|assumption]|]. split; [first [reflexivity|assumption]|]. split; [first [reflexivity|assumption]|].
+    split; [now apply nodupb_sound|]. split; [now apply negb_true_iff|]. split; [now apply no_depb_sound|].
+    split; [now apply Nat.leb_le|]. split; [first [reflexivity|assumption]|]. split; [first [reflexivity|assumption]|]. split; [exact Hsc|].
+    split; [|split; [exact Hkind|split; reflexivity]].
+    intros b w Hin Hb. rewrite forallb_forall in Hreach. specialize (Hreach (b, w) Hin).
+    apply Nat.eqb_neq in Hb.
+    change (((b =? a) || negb (reaches 23 (heap s) w lc)) = true) in Hreach.
+    rewrite Hb in Hreach.
+    assert (R : forall x : bool, false || negb x = true -> x = false) by (intros [|] E; [discriminate E|reflexivity]).
+    exact (R _ Hreach).
+  Qed.
+
+  Ltac nfacts kd H :=
+    destruct (nested_guard_sound kd H)
+      as [c [d [k [sp [lc [o [Gl [Gc [Ga [Gd [Gfz [Gni [Gdep [Gfld [Glc [Go [Gun [Hk [Hsp Hob]]]]]]]]]]]]]]]]]]].
+  Ltac lshape Hty Hk :=
+    match goal with sp : attr_spec, o : obj |- _ =>
+      destruct (a_ty sp) as [| | | | | | |ity| |ity'|] eqn:Hty; try discriminate Hk;
+      destruct o as [xs| | |]; try discriminate Hk end.
+  Ltac dshape Hty Hk :=
+    match goal with sp : attr_spec, o : obj |- _ =>
+      destruct (a_ty sp) as [| | | | | | | |tk tv| |] eqn:Hty; try discriminate Hk;
+      destruct o as [|kvs| |]; try discriminate Hk end.
+  Ltac sshape Hty Hk :=
+    match goal with sp : attr_spec, o : obj |- _ =>
+      destruct (a_ty sp) as [| | | | | | |ity'| |ity|] eqn:Hty; try discriminate Hk;
+      destruct o as [| |xs|]; try discriminate Hk end.
+  Ltac dep := cbn [ty_depth] in *; lia.
+
+  (* ---- lists ---- *)
+  Theorem with_item_list_nested_guarded idx v ins :
+    nested_guard ct s l a KList = true -> plain_items ct s l a = true ->
+    vscalar v = true -> (idx = VMissing \/ exists i, idx = VInt i) ->
+    refines_spec ct h0 s l (HWithItem a) (mkh [v] true true idx ins None None [] None)
+                 (SWithItem a) (mkah [abs0 v] true true (abs0 idx) ins None None [] None).
+  Proof.
+    intros H Hp Hv Hi. nfacts KList H. destruct (plain_items_facts ct s l a sp Hsp Hp) as [P1 P2].
+    lshape Hty Hk. cbn [item_type] in P2.
+    exact (with_item_list_nested_refines ct h0 l a c d k sp s lc Gl Gc Ga Gd Gfz Gni Gfld Gun xs ity Hty ltac:(dep) Glc Go
+             idx v ins P1 P2 Hv Hi).
+  Qed.
+
+  Theorem without_item_list_nested_guarded voi bi :
+    nested_guard ct s l a KList = true -> nonref voi = true ->
+    refines_spec ct h0 s l (HWithoutItem a) (mkh [voi] true true VMissing false bi None [] None)
+                 (SWithoutItem a) (mkah [abs0 voi] true true AMissing false bi None [] None).
+  Proof.
+    intros H Hv. nfacts KList H. lshape Hty Hk.
+    exact (without_item_list_nested_refines ct h0 l a c d k sp s lc Gl Gc Ga Gd Gfz Gni Gfld Gun xs ity Hty ltac:(dep) Glc Go
+             voi bi Hv).
+  Qed.
+
+  Theorem transform_item_list_nested_guarded voi fo bi :
+    nested_guard ct s l a KList = true -> proper_elems s l a = true -> fail_at s = None ->
+    nonref voi = true -> is_missing voi = false -> fo_ok fo -> by_value_ok ct s l a voi bi = true ->
+    refines_spec ct h0 s l (HTransformItem a) (mkh [voi] true true VMissing false bi None [] fo)
+                 (STransformItem a) (mkah [abs0 voi] true true AMissing false bi None [] fo).
+  Proof.
+    intros H Hpe Hfa Hv Hm Hfo Hbv. nfacts KList H. lshape Hty Hk.
+    unfold proper_elems in Hpe. rewrite (list_of_list s l a xs Hob) in Hpe.
+    exact (transform_item_list_nested_refines ct h0 l a c d k sp s lc xs ity Gl Gc Ga Gd Gfz Gni Gfld Gun Hty ltac:(dep) Glc Hpe
+             voi fo bi Hv Hm Hfa Hfo (by_value_ok_facts ct s l a sp ity xs voi bi Hsp Hty (list_of_list s l a xs Hob) Hbv)).
+  Qed.
+
+  Theorem update_item_list_nested_guarded voi v bi :
+    nested_guard ct s l a KList = true -> proper_elems s l a = true -> plain_items ct s l a = true ->
+    nonref voi = true -> is_missing voi = false -> nonref v = true ->
+    vscalar v || by_value_ok ct s l a voi bi = true ->
+    refines_spec ct h0 s l (HUpdateItem a) (mkh [voi; v] true true VMissing false bi None [] None)
+                 (SUpdateItem a) (mkah [abs0 voi; abs0 v] true true AMissing false bi None [] None).
+  Proof.
+    intros H Hpe Hp Hv Hm Hnv Hbv. nfacts KList H. destruct (plain_items_facts ct s l a sp Hsp Hp) as [P1 P2].
+    lshape Hty Hk. cbn [item_type] in P2.
+    unfold proper_elems in Hpe. rewrite (list_of_list s l a xs Hob) in Hpe.
+    refine (update_item_list_nested_refines ct h0 l a c d k sp s lc xs ity Gl Gc Ga Gd Gfz Gni Gfld Gun Hty ltac:(dep) Glc Hpe
+             voi v bi P1 P2 Hv Hm Hnv _).
+    intros Hsv Hb. rewrite Hsv in Hbv. cbn [orb] in Hbv.
+    exact (by_value_ok_facts ct s l a sp ity xs voi bi Hsp Hty (list_of_list s l a xs Hob) Hbv Hb).
+  Qed.
+
+  (* ---- dicts ---- *)
+  Theorem with_item_dict_nested_guarded key v :
+    nested_guard ct s l a KDict = true -> plain_items ct s l a = true -> nonref key = true -> vscalar v = true ->
+    refines_spec ct h0 s l (HWithItem a) (mkh [key; v] true true VMissing false None None [] None)
+                 (SWithItem a) (mkah [abs0 key; abs0 v] true true AMissing false None None [] None).
+  Proof.
+    intros H Hp Hkey Hv. nfacts KDict H. destruct (plain_items_facts ct s l a sp Hsp Hp) as [P1 P2].
+    dshape Hty Hk. cbn [item_type] in P2.
+    exact (with_item_dict_nested_refines ct h0 l a c d k sp s lc Gl Gc Ga Gd Gfz Gni Gfld Gun kvs tk tv Hty ltac:(dep) ltac:(dep)
+             Glc Go key v P1 P2 Hkey Hv).
+  Qed.
+
+  Theorem without_item_dict_nested_guarded key :
+    nested_guard ct s l a KDict = true -> nonref key = true ->
+    refines_spec ct h0 s l (HWithoutItem a) (mkh [key] true true VMissing false None None [] None)
+                 (SWithoutItem a) (mkah [abs0 key] true true AMissing false None None [] None).
+  Proof.
+    intros H Hkey. nfacts KDict H. dshape Hty Hk.
+    exact (without_item_dict_nested_refines ct h0 l a c d k sp s lc Gl Gc Ga Gd Gfz Gni Gfld Gun kvs tk tv Hty Glc Go key Hkey).
+  Qed.
+
+  Theorem transform_item_dict_nested_guarded key fo bi :
+    nested_guard ct s l a KDict = true -> dict_vals_proper s l a = true -> fail_at s = None ->
+    nonref key = true -> is_missing key = false -> fo_ok fo ->
+    refines_spec ct h0 s l (HTransformItem a) (mkh [key] true true VMissing false bi None [] fo)
+                 (STransformItem a) (mkah [abs0 key] true true AMissing false bi None [] fo).
+  Proof.
+    intros H Hvp Hfa Hkey Hm Hfo. nfacts KDict H. dshape Hty Hk.
+    exact (transform_item_dict_nested_refines ct h0 l a c d k sp s lc Gl Gc Ga Gd Gfz Gni Gfld Gun kvs tk tv Hty ltac:(dep) ltac:(dep)
+             Glc Go (dvp_facts s l a kvs Hob Hvp) key fo bi Hkey Hm Hfa Hfo).
+  Qed.
+
+  Theorem update_item_dict_nested_guarded key v :
+    nested_guard ct s l a KDict = true -> dict_vals_proper s l a = true -> plain_items ct s l a = true ->
+    nonref key = true -> is_missing key = false -> nonref v = true ->
+    refines_spec ct h0 s l (HUpdateItem a) (mkh [key; v] true true VMissing false None None [] None)
+                 (SUpdateItem a) (mkah [abs0 key; abs0 v] true true AMissing false None None [] None).
+  Proof.
+    intros H Hvp Hp Hkey Hm Hnv. nfacts KDict H. destruct (plain_items_facts ct s l a sp Hsp Hp) as [P1 P2].
+    dshape Hty Hk. cbn [item_type] in P2.
+    exact (update_item_dict_nested_refines ct h0 l a c d k sp s lc Gl Gc Ga Gd Gfz Gni Gfld Gun kvs tk tv Hty ltac:(dep) ltac:(dep)
+             Glc Go (dvp_facts s l a kvs Hob Hvp) key v P1 P2 Hkey Hm Hnv).
+  Qed.
+
+  (* ---- sets ---- *)
+  Theorem with_item_set_nested_guarded v :
+    nested_guard ct s l a KSet = true -> plain_items ct s l a = true -> vscalar v = true ->
+    set_key_free ct (list_of s l a) v = true ->
+    refines_spec ct h0 s l (HWithItem a) (mkh [v] true true VMissing false None None [] None)
+                 (SWithItem a) (mkah [abs0 v] true true AMissing false None None [] None).
+  Proof.
+    intros H Hp Hv Hkf. nfacts KSet H. destruct (plain_items_facts ct s l a sp Hsp Hp) as [P1 P2].
+    sshape Hty Hk. cbn [item_type] in P2. rewrite (list_of_set s l a xs Hob) in Hkf.
+    exact (with_item_set_nested_refines ct h0 l a c d k sp s lc Gl Gc Ga Gd Gfz Gni Gfld Gun xs ity Hty ltac:(dep) Glc Go
+             v P1 P2 Hv Hkf).
+  Qed.
+
+  Theorem without_item_set_nested_guarded voi :
+    nested_guard ct s l a KSet = true -> nonref voi = true ->
+    refines_spec ct h0 s l (HWithoutItem a) (mkh [voi] true true VMissing false None None [] None)
+                 (SWithoutItem a) (mkah [abs0 voi] true true AMissing false None None [] None).
+  Proof.
+    intros H Hv. nfacts KSet H. sshape Hty Hk.
+    exact (without_item_set_nested_refines ct h0 l a c d k sp s lc Gl Gc Ga Gd Gfz Gni Gfld Gun xs ity Hty Glc Go voi Hv).
+  Qed.
+
+  Theorem transform_item_set_nested_guarded voi fo bi :
+    nested_guard ct s l a KSet = true -> fail_at s = None -> vscalar voi = true -> fo_ok fo ->
+    set_change_ok ct s l a voi (trp fo voi) = true ->
+    refines_spec ct h0 s l (HTransformItem a) (mkh [voi] true true VMissing false bi None [] fo)
+                 (STransformItem a) (mkah [abs0 voi] true true AMissing false bi None [] fo).
+  Proof.
+    intros H Hfa Hv Hfo Hok. nfacts KSet H. sshape Hty Hk.
+    destruct (set_change_ok_facts ct s l a xs voi (trp fo) (list_of_set s l a xs Hob) Hok) as [Hid Hkf].
+    exact (transform_item_set_nested_refines ct h0 l a c d k sp s lc Gl Gc Ga Gd Gfz Gni Gfld Gun xs ity Hty ltac:(dep) Glc Go
+             voi fo bi Hv Hfa Hfo Hid Hkf).
+  Qed.
+
+  Theorem update_item_set_nested_guarded voi v :
+    nested_guard ct s l a KSet = true -> plain_items ct s l a = true -> vscalar voi = true -> nonref v = true ->
+    set_change_ok ct s l a voi (up_pr v voi) = true ->
+    refines_spec ct h0 s l (HUpdateItem a) (mkh [voi; v] true true VMissing false None None [] None)
+                 (SUpdateItem a) (mkah [abs0 voi; abs0 v] true true AMissing false None None [] None).
+  Proof.
+    intros H Hp Hv Hnv Hok. nfacts KSet H. destruct (plain_items_facts ct s l a sp Hsp Hp) as [P1 P2].
+    sshape Hty Hk. cbn [item_type] in P2.
+    destruct (set_change_ok_facts ct s l a xs voi (up_pr v) (list_of_set s l a xs Hob) Hok) as [Hid Hkf].
+    exact (update_item_set_nested_refines ct h0 l a c d k sp s lc Gl Gc Ga Gd Gfz Gni Gfld Gun xs ity Hty ltac:(dep) Glc Go
+             voi v P1 P2 Hv Hnv Hid Hkf).
+  Qed.
+End GuardedNested.
+
+(* ------------------------------------------------------------------ *)
 (** * A concrete class and receiver: xs : List[int], m : Dict[str, int], t : Set[int] *)
 
 Definition ex_list_sp : attr_spec := mkattr 1 (TList TInt) VMissing None 0 true false None None [].
@@ -1222,3 +1449,16 @@ Definition ex_ct_prep : ctable := [ex_cls_prep].
 Definition ex_dep_sp : attr_spec := mkattr 4 TInt (VInt 0) None 0 true false None None [2].
 Definition ex_cls_dep : cls := mkcls 0 [ex_list_sp; ex_dict_sp; ex_set_sp; ex_dep_sp] false false None [0] 0 [] None None.
 Definition ex_ct_dep : ctable := [ex_cls_dep].
+
+(* a NESTED receiver: xs : List[int] next to `sub`, an attribute holding another instance whose own
+   attribute holds a list of lists with sharing *)
+Definition ex_sub_sp : attr_spec := mkattr 5 TAny VMissing None 0 true false None None [].
+Definition ex_cls_nest : cls := mkcls 0 [ex_list_sp; ex_sub_sp] false false None [0] 0 [] None None.
+Definition ex_ct_nest : ctable := [ex_cls_nest].
+Definition ex_state_nest : state :=
+  mkst [OInst 0 [(1, VRef 1); (5, VRef 2)];
+        OList [VInt 1; VInt 0];
+        OInst 0 [(1, VRef 3); (5, VRef 4)];
+        OList [VInt 9];
+        OList [VRef 5; VRef 5; VRef 3];
+        OList [VInt 7]] 0 None.
